@@ -134,6 +134,10 @@ def update (c : Cfg) (s : State) (M : List Nat) (bitlen : Option Nat := none) (p
   | some e => (s', .error e)
   | none => (s', .ok (digest c H))
 
+/-- `for p in pieces: h.update(p)` (non-final updates; the returned intermediate digests are dropped) -/
+def feed (c : Cfg) (s : State) (pieces : List (List Nat)) : State :=
+  pieces.foldl (fun s p => (update c s p none false).1) s
+
 /-- `__call__(M,s,bitlen)` -/
 def call (c : Cfg) (M : List Nat) (salt : Nat := 0) (bitlen : Option Nat := none) : Except Err (List Nat) :=
   (update c (initstate c salt) M bitlen true).2
@@ -244,6 +248,10 @@ def update (c : Cfg) (s : State) (M : List Nat) (padding : Bool := false) : Stat
   match it.err with
   | some e => (s', .error e)
   | none => (s', .ok (digest s.outlen H))
+
+/-- `for p in pieces: h.update(p)` (non-final updates) -/
+def feed (c : Cfg) (s : State) (pieces : List (List Nat)) : State :=
+  pieces.foldl (fun s p => (update c s p false).1) s
 
 /-- `__call__(M,**kargs)` -/
 def call (c : Cfg) (M : List Nat) (p : Params := {}) : Except Err (List Nat) := do
